@@ -122,7 +122,8 @@ class DashTiming:
                 self.publishTime -
                 datetime.timedelta(seconds=self.DEFAULT_TIMESHIFT_BUFFER_DEPTH))
         else:
-            self.availabilityStartTime = options.availabilityStartTime
+            # publishTime is kept on a whole second, so availabilityStartTime must be too
+            self.availabilityStartTime = options.availabilityStartTime.replace(microsecond=0)
         self.elapsedTime = now - self.availabilityStartTime
         logging.debug(
             'calculate_live_params elapsed=%s (%f) now=%s availabilityStartTime=%s timescale=%d',
